@@ -325,7 +325,7 @@ func checkCallbackListUntouched(c *Ctx, r *Report, rule string) {
 					passed = true
 					continue
 				}
-				if stripValue(stripConv(a)) != ssa.Value(list) {
+				if !sameParam(stripValue(stripConv(a)), list) {
 					continue
 				}
 				if b, ok := cc.Value.(*ssa.Builtin); ok && b.Name() == "append" {
@@ -339,7 +339,7 @@ func checkCallbackListUntouched(c *Ctx, r *Report, rule string) {
 		}
 		allInstrs(f, func(in ssa.Instruction) {
 			if st, ok := in.(*ssa.Store); ok {
-				if ia, ok := st.Addr.(*ssa.IndexAddr); ok && ia.X == ssa.Value(list) {
+				if ia, ok := st.Addr.(*ssa.IndexAddr); ok && sameParam(ia.X, list) {
 					probs = append(probs, "an element of it is assigned at "+c.Pos(in.Pos()))
 				}
 			}
